@@ -81,6 +81,10 @@ def catalogue():
     q("SqArr", ["[u16; 2]", "u32"], repr_="C", note="array field, packed")
     q("SqF32", ["f32", "u32"], repr_="C", note="float field")
     q("SqOne", ["u64"], note="single field repr(Rust): offset 0 and full size => packed")
+    q("SqOverAligned1", ["u32"], repr_="C, align(8)", note="over-aligned single field: trailing padding, must not be packed")
+    q("SqOverAligned2", ["u16", "u16"], repr_="C, align(8)", note="over-aligned two fields: trailing padding")
+    t("StOverAlignedRust", ["u8"], repr_="align(4)", note="repr(align(4)) newtype")
+    t("StOverAligned3", ["u32", "u32", "u32"], repr_="C, align(16)", note="12 bytes of fields in 16")
     # --- thorough: all ordered pairs over an alphabet, alternating repr, + triples
     alpha = ["u8", "u16", "u32", "u64", "bool", "char", "(u8, u8)", "[u8; 3]", "usize", "String", "Option<u8>"]
     k = 0
@@ -108,7 +112,8 @@ def catalogue():
     eq("EqDataU32", [T("A", "u32"), S("B", "u16", "u16")], repr_="u32", note="repr(u32) data enum: tag 4 + 4: packed candidate")
     eq("EqDataPad", [T("A", "u8"), T("B", "u32")], repr_="u8", note="variant with padding: not packed")
     eq("EqStr", [T("A", "String"), U("B")], note="string payload")
-    et("EqMany", [U("A"), U("B")], many=255, note="300 variants without repr: 2-byte discriminant")
+    et("EqMany257", [U("A"), U("B")], many=255, note="257 variants without repr: 2-byte discriminant")
+    et("EqMany256", [U("A"), U("B")], many=254, note="exactly 256 variants without repr: still a 1-byte discriminant")
     eq("EqExplicit", [U("A", 5), U("B", 7)], repr_="u8", note="explicit discriminants: wire = variant index, image = discriminant value")
     et("EtU8Data2", [T("A", "u8", "u8"), T("B", "u16")], repr_="u8", note="")
     et("EtU16Data", [T("A", "u16"), S("B", "u8", "u8")], repr_="u16", note="")
@@ -291,6 +296,8 @@ def main():
         sys.path.insert(0, os.path.dirname(os.path.abspath(__file__)))
         import schemas
         print("schemas:", schemas.emit())
+        import histories
+        print("histories:", histories.emit())
 
 if __name__ == "__main__":
     main()
